@@ -293,9 +293,12 @@ def tdesc(di, idx):
 
 
 def decide(di, descs):
-    matching, minimal = ref.decide(descs, di["sref"])
-    ok_ids = {di["sref"][i][1] for i in minimal}
-    return matching, minimal, ok_ids
+    """Reference decision for one argument type tuple (memoised per dispatcher: it is a pure function)."""
+    memo = di.setdefault("decisions", {})
+    if descs not in memo:
+        matching, minimal = ref.decide(descs, di["sref"])
+        memo[descs] = (matching, minimal, {di["sref"][i][1] for i in minimal})
+    return memo[descs]
 
 
 def hist_tuples(dn, tier):
@@ -497,6 +500,7 @@ def sub_snippet(facts, wrapped=False):
 
 def bounds(tier):
     cfg = dict(_cfg(tier))
+    W.set_tier(tier)
     w = W.world()
     cfg.update(
         {
@@ -516,6 +520,7 @@ def bounds(tier):
 
 def cases(tier):
     _TIER["t"] = tier
+    W.set_tier(tier)
     w = W.world()
     out = [["subhist"]]
     for text in w["pool"]:
@@ -676,7 +681,7 @@ def check_sub(case):
                     "message": "transitivity: %s <= %s and %s <= %s but not %s <= %s; the fact that departs from the "
                     "structural rule: deep_issubclass(%s, %s) = %s"
                     % (text, m["texts"][j], m["texts"][j], m["texts"][int(k)], text, m["texts"][int(k)], ref.text(x), ref.text(y), got),
-                    "snippet": sub_snippet([(da, db, True), (db, dc, True), (da, dc, True)]),
+                    "snippet": sub_snippet([(p, q, ref.sub(p, q)) for p, q in ((da, db), (db, dc), (da, dc))]),
                 }
             )
     transitions = counters["pairs"] + counters["triples"]
@@ -686,19 +691,6 @@ def check_sub(case):
     strict_sub = bool((T[:, i] & ~T[i]).any())
     cls = "sub:%s:%s%s" % (da[0], "^" if strict_sup else "-", "v" if strict_sub else "-")
     return core.ok(key, strict_sup and strict_sub, cls, transitions, counters)
-
-
-def _has_empty(v):
-    """The deep type of v is knowingly less precise than v: an empty container (bare type) or a frozenset whose
-    elements have different classes (deep_type widens the element type to its unparametrised origin)."""
-    if isinstance(v, frozenset) and len({type(x) for x in v}) > 1:
-        return True
-    if isinstance(v, (tuple, frozenset)):
-        return len(v) == 0 or any(_has_empty(x) for x in v)
-    vals = ref.ast_values(v)
-    if vals is not None:
-        return any(_has_empty(x) for x in vals)
-    return False
 
 
 def check_mem(case):
@@ -754,7 +746,8 @@ def check_mem(case):
             counters["ref_no_opinion"] += 1
             continue
         if li != rm:
-            if rm is True and li is False and _has_empty(v):
+            if rm is True and li is False and ref.member(v, db, conservative=True) is not True:
+                # an empty container / a frozenset of mixed classes is recorded less precisely than it is
                 counters["conservative_imprecise_deep_type"] += 1
                 continue
             vios.append(
@@ -933,7 +926,7 @@ def check_real(case, tier):
             rs += [any(ref.member(a, alt) is not False for alt in (var or ())) for a in rest]
             if all(r is not False for r in rs):
                 okm = True
-        if not okm and not any(_has_empty(a) for a in args):
+        if not okm:
             v = {
                 "site": "dispatch:" + dn,
                 "features": {"what": "real", "reason": "argument-not-a-member-of-chosen-pattern", "dispatcher": dn, "kind": info["kind"]},
@@ -1076,6 +1069,7 @@ def _tier_of(case):
 
 def replay(body):
     _TIER["t"] = body.get("tier", "quick")
+    W.set_tier(_TIER["t"])
     return check(body["case"], body.get("seed", 0))
 
 
